@@ -248,9 +248,11 @@ def main(argv=None):
     ap.add_argument("--shards", type=int, default=None)
     ap.add_argument("--scale", type=float, default=1.0, help="multiply example counts (development aid)")
     ap.add_argument("--no-evidence", action="store_true")
+    ap.add_argument("--out", default=None, help="write evidence/ and replays/ under this directory instead of /verif (mutant drills)")
     ap.add_argument("--discover", action="store_true", help="development: print every failure signature, write nothing")
     args = ap.parse_args(argv)
     prop_id = args.prop.upper()
+    out_root = os.path.abspath(args.out) if args.out else ROOT
     tier = args.tier if args.tier in ("quick", "thorough") else "quick"
     try:
         seed = args.seed if args.seed is not None else int(os.environ.get("VERIF_SEED", "1") or "1")
@@ -380,8 +382,8 @@ def main(argv=None):
                 traceback.print_exc()
         h = hashlib.sha1(sig.encode()).hexdigest()[:10]
         rel = os.path.join("replays", f"{prop_id}-{h}.json")
-        os.makedirs(os.path.join(ROOT, "replays"), exist_ok=True)
-        with open(os.path.join(ROOT, rel), "w") as fh:
+        os.makedirs(os.path.join(out_root, "replays"), exist_ok=True)
+        with open(os.path.join(out_root, rel), "w") as fh:
             json.dump(
                 {"property": prop_id, "sig": sig, "case": case, "detail": _truncate(fl["detail"], 4000), "seed": seed, "shard": fl["shard"], "tier": tier, "occurrences": fail_counts[sig]},
                 fh,
@@ -431,7 +433,7 @@ def main(argv=None):
         "violations": len(violations),
     }
     if not args.no_evidence:
-        write_evidence(os.path.join(ROOT, "evidence", f"{prop_id}.json"), doc)
+        write_evidence(os.path.join(out_root, "evidence", f"{prop_id}.json"), doc)
     print(
         f"{prop_id} tier={tier} seed={seed} evaluations={evaluations} distinct_nontrivial={len(nontrivial)} "
         f"refused={coverage['refused']} excluded={coverage['excluded_by_quarantine']} known_hits={sum(known_hits.values())} "
